@@ -12,6 +12,8 @@ prop = sys.argv[1]; vseed = int(sys.argv[2])
 verif = os.environ.get("VERIF_DIR", "/verif")
 repo = "/repo"
 if "--repo" in sys.argv: repo = sys.argv[sys.argv.index("--repo") + 1]
+tier = "thorough"
+if "--tier" in sys.argv: tier = sys.argv[sys.argv.index("--tier") + 1]
 src = os.path.join(os.path.dirname(os.path.dirname(os.path.abspath(__file__))), "miri_tier")
 work = src
 if repo != "/repo":
@@ -20,7 +22,11 @@ if repo != "/repo":
     t = open(work + "/Cargo.toml").read().replace('path = "/repo"', f'path = "{repo}"'); open(work + "/Cargo.toml", "w").write(t)
 # (mode args, preemption rate, number of miri seeds)
 if prop == "C18":
-    batches = [(["%d" % (vseed * 11 + 1), "3"], "0.05", 16), (["%d" % (vseed * 11 + 2), "2"], "0.01", 32), (["%d" % (vseed * 11 + 3), "2"], "0.003", 32), (["%d" % (vseed * 11 + 4), "2", "hammer"], "0.003", 32)]
+    batches = [(["%d" % (vseed * 11 + 1), "3"], "0.05", 16), (["%d" % (vseed * 11 + 2), "2"], "0.01", 32), (["%d" % (vseed * 11 + 3), "2"], "0.003", 32), (["%d" % (vseed * 11 + 4), "2", "hammer"], "0.003", 32),
+               (["%d" % (vseed * 11 + 5), "3", "clones"], "0.05", 48), (["%d" % (vseed * 11 + 6), "4", "clones"], "0.05", 32), (["%d" % (vseed * 11 + 7), "3", "clones"], "0.01", 32)]
+    if tier == "quick":
+        # every-change budget: clones of one reader / hasher used on three threads, and the disjoint-instance programs
+        batches = [(["%d" % (vseed * 11 + 5), "3", "clones"], "0.05", 32), (["%d" % (vseed * 11 + 1), "3"], "0.05", 8)]
 elif prop == "C08":
     batches = [(["%d" % (vseed * 13 + k), "0", "join"], r, 12) for k, r in [(1, "0.05"), (2, "0.01"), (3, "0.003"), (4, "0.01")]]
 elif prop == "C07":
@@ -87,7 +93,7 @@ if viol:
     print(f"VIOLATION property={prop} replay={rp}")
     exitc = 1
 part = {"part": "miri", "flavour": "miri-portable", "exit": exitc, "shapes": [], "sigs": [], "run_digests": {},
-        "evidence": {"property_id": prop, "tier": "thorough", "seed": vseed, "level": "exploration", "wall_s": wall, "violations": 1 if viol else 0,
+        "evidence": {"property_id": prop, "tier": tier, "seed": vseed, "level": "exploration", "wall_s": wall, "violations": 1 if viol else 0,
                      "assumptions": ["Miri interprets the portable Rust code only (no FFI); its scheduler is seeded, its race detector sound for the executed interleaving"],
                      "coverage": {"evaluations": total, "distinct_nontrivial": total, "rule": "one Miri seed = one interleaving with preemption at any basic block; distinct = seeds executed", "samples": samples}}}
 os.makedirs(os.path.join(verif, "evidence", ".parts"), exist_ok=True)
